@@ -102,6 +102,11 @@ def plan_for(pid, tier):
     if pid == "C03":
         import compcheck
         common["pre"] = compcheck.dvvisit_stage
+    if pid == "C10":
+        common["models"] = [("Residue", "Residue.cfg", "PooledClean", ["ResidueWrong.cfg"])]
+    if pid == "C11":
+        common["models"] = [("Caches", "Caches_mutex.cfg", "NoRace", ["Caches_rlock-write.cfg"]),
+                            ("Caches", "Caches_rw-double-checked.cfg", "NoRace", [])]
     if pid == "C06":
         common["models"] = [("MergeImpl", "MergeImplQ.cfg" if q else "MergeImpl.cfg", "MergeIsRebuild", ["MergeImplMut_dropsI.cfg", "MergeImplMut_noEmptyFlush.cfg"])] + \
                            ([] if q else [("MergeImpl", "MergeImpl3.cfg", "MergeIsRebuild", [])])
